@@ -319,6 +319,13 @@ def replay_main(modname):
     """`./check <id> --replay file` → module.replay(body) -> bool (True = violation reproduces)."""
     if len(sys.argv) >= 3 and sys.argv[1] == "--replay":
         import importlib
+        spec = getattr(sys.modules.get("__main__"), "__spec__", None)
+        if modname == "__main__" and spec is not None:
+            modname = spec.name
+        if os.environ.get("VERIF_TIER") != "thorough":
+            # replays look configurations up in the catalogues: use the widest (thorough) catalogue regardless of the caller's tier
+            env = dict(os.environ, VERIF_TIER="thorough")
+            os.execve(sys.executable, [sys.executable, "-m", modname] + sys.argv[1:], env)
         with open(sys.argv[2]) as f:
             body = json.load(f)
         mod = importlib.import_module(modname)
